@@ -78,7 +78,9 @@ func (s *fakeStream) Seek(ctx context.Context, msgPositions []*msgstream.MsgPosi
 
 type Factory struct{}
 
-func (Factory) NewMsgStream(ctx context.Context) (msgstream.MsgStream, error) { return &fakeStream{}, nil }
+func (Factory) NewMsgStream(ctx context.Context) (msgstream.MsgStream, error) {
+	return &fakeStream{}, nil
+}
 func (Factory) NewTtMsgStream(ctx context.Context) (msgstream.MsgStream, error) {
 	return &fakeStream{}, nil
 }
@@ -96,7 +98,7 @@ type TColl struct {
 type Target struct {
 	*api.DefaultTargetAPI
 	mu      sync.Mutex
-	Colls   map[string]*TColl              // by collection name
+	Colls   map[string]*TColl             // by collection name
 	Answers map[string][]map[string]int64 // scripted answers of GetPartitionInfo per collection name; nil entry = error
 	Calls   int
 }
@@ -231,6 +233,12 @@ func CreateCollection(id uint64, ts uint64, vch string, coll int64, cname string
 	return &msgstream.CreateCollectionMsg{BaseMsg: base(ts, vch, id), CreateCollectionRequest: &msgpb.CreateCollectionRequest{
 		Base: &commonpb.MsgBase{MsgType: commonpb.MsgType_CreateCollection, Timestamp: ts, MsgID: int64(id)}, CollectionID: coll,
 		CollectionName: cname, DbName: "default"}}
+}
+
+func Import(id uint64, ts uint64, vch string, coll int64, parts []int64, cname string) msgstream.TsMsg {
+	return &msgstream.ImportMsg{BaseMsg: base(ts, vch, id), ImportMsg: &msgpb.ImportMsg{
+		Base: &commonpb.MsgBase{MsgType: commonpb.MsgType_Import, Timestamp: ts, MsgID: int64(id)}, CollectionID: coll,
+		CollectionName: cname, DbName: "default", PartitionIDs: parts, JobID: int64(id)}}
 }
 
 func Tick(ts uint64, vch string) msgstream.TsMsg {
